@@ -138,3 +138,25 @@ PROPS["C06"] = dict(
     level_text="seeded fault injection on the wire (drop / duplicate / delay of acknowledged frames and of acks, partitions longer than the retry budget, malformed multipart sequences) with the real Bridge and Executor receive loops, plus single-loss and single-duplication enumeration of every acknowledged frame and ack of recorded base runs; oracle over (sender address, idx): delivered at most once, equal to what was sent, at quiescence delivered exactly once or the sender raised, bounded give-up, malformed sequences rejected",
     level_note=_LN,
 )
+
+REAL_DP = ["cascade.executor.data_server.DataServer (recv_loop, send_payload, store_payload, maybe_clean, its 2-thread pool)", "cascade.executor.comms (Listener, ReliableSender, callback, send_data)",
+           "cascade.shm.{client,server,dataset,disk,api}", "cascade.executor.runner.memory.ds2shmid", "cascade.executor.serde"]
+STUB_DP = ["zmq / UDP / SharedMemory / ThreadPoolExecutor / clock fakes", "executor of each host: stub that owns the message address, pre-loads datasets through the real shm client and records announcements",
+           "controller: scripted endpoint (real ReliableSender + Listener) that respects C04's contract (no purge at the source of an unanswered transfer/fetch)"]
+PROPS["C07"] = dict(
+    level="fault_enumeration", budget=dict(quick=90, thorough=900),
+    groups=[
+        dict(name="clean", harness="dataplane", weight=1, runs=dict(quick=400, thorough=8000), opts=dict(lossy=False)),
+        dict(name="lossy", harness="dataplane", weight=3, runs=dict(quick=1200, thorough=40000), opts=dict(lossy=True)),
+        dict(name="enum-frame", harness="dataplane", weight=3, runs=dict(quick=48, thorough=2000), opts=dict(lossy=False),
+             enumerate=dict(kinds=["frame"], quick=40, thorough=None)),
+    ],
+    rule="run = (2-3 hosts, 1-5 datasets with unique bytes and deser strings, script of transfers incl. redundant ones / fetches / purges with gaps, loss-dup-delay pattern, schedule); "
+         "distinct = distinct event-log digest; non-trivial = a payload/ack/command fault fired or a purge overlapped an unanswered transfer to that host, with >=1 command issued",
+    real=REAL_DP, stub=STUB_DP,
+    assumptions=["the command script respects C04's contract (never purges at the source of an unanswered transfer or fetch)",
+                 "loss/duplication only on Syn-prefixed frames and Acks, capped per logical message below the retry budget (fair loss); faults stop before the final audit",
+                 "final audit reads every host's store through the real shm client"],
+    level_text="seeded loss/duplication/delay of payload frames, confirmations and commands against real DataServers and real shm servers, plus single-drop and single-duplicate enumeration of every acknowledged frame of recorded base runs; oracle at quiescence against a single-copy store per host (stored once, byte- and deser-identical, announced once per transmit idx, fetch delivers once, purge wins over late payloads) and continuously (no unlink while a data-server thread maps the segment)",
+    level_note=_LN,
+)
